@@ -5,16 +5,7 @@ import importlib, json, os, sys
 HERE = os.path.dirname(os.path.dirname(os.path.abspath(__file__)))
 sys.path.insert(0, HERE)
 
-NOT_APPLICABLE = {
-    "C07": "every clause (residual orthogonality, vanishing gradient, solver agreement, predict = X*w + b) is an identity "
-           "between computed floating-point values; no clause is a contract, boundary or provenance fact, and a structural "
-           "proxy would fire on behaviour-preserving rewrites (DESIGN section 5)",
-    "C12": "centroid = mean of members, nearest-centroid assignment and agreement of the filtering tree with exhaustive "
-           "search are numerical/geometric facts over all data sets and RNG draws; no structural necessary condition of a "
-           "stated clause is within sound static reach (DESIGN section 5)",
-    "C14": "orthonormality, decorrelation, variance ordering and optimality of captured variance are numerical; the "
-           "argument checks belong to the quantifier, not the statement (DESIGN section 5)",
-}
+NOT_APPLICABLE = {}
 ALL = [f"C{i:02d}" for i in range(1, 21)]
 TRUST = ("rustc's type checking, trait resolution and MIR construction; the transparent-call / transfer tables of the "
          "analysis library (sa/); decides only the clauses named in level_claimed.text, not the numerical behaviour")
